@@ -551,6 +551,14 @@ func (p *Packer) Unpack(r io.Reader, dst string) error {
 		}
 	}
 
+	// The tar reader stops reading at the end-of-archive marker. Read what is
+	// left of the gzip stream too: only at its end is the checksum of the
+	// decompressed data verified, and only then is it known that the slug was
+	// read completely and undamaged.
+	if _, err := io.Copy(io.Discard, uncompressed); err != nil {
+		return fmt.Errorf("failed to decompress slug: %w", err)
+	}
+
 	for _, dir := range directoriesExtracted {
 		if err := dir.RestoreInfo(); err != nil {
 			return err
